@@ -1,5 +1,8 @@
 """C15: attribution of failing query records to entries of known_findings.json.
 
+Only F31 is a known finding now (F30, F32, F33, F34 are repaired in /repo: their recurrence is a violation; the
+functions `float_remainder` / `float_sum_check` are kept for reference, no entry of known_findings.json names them).
+
 A record is what `checks/c15.py:judge_query` produced for one (BIF text, query): it holds the input, the
 values of the Lean specification (`spec`), and what the real code answered (`code`).  Every function below
 recognises exactly one defect — by an exact structural signature of the failing answer and, where the
@@ -62,7 +65,8 @@ def moments_agree(kind, k, moment_values, spec, nmax):
     mv = [[Fr(t[1]) if t[0] == "q" else None for t in m] for m in (moment_values or [])]
     if kind == "ei" and len(mv) == 2:
         num, den = Fr(spec["gen_num"]), Fr(spec["gen_den"])
-        return mv[0] == [Fr(1) if k == 0 else Fr(0)] + [num] * nmax and mv[1] == [Fr(0)] + [den] * nmax
+        # for k = 0 the numerator asked for is E(ind) itself (gen_num = gen_den in the model)
+        return mv[0] == [Fr(0)] + [num] * nmax and mv[1] == [Fr(0)] + [den] * nmax
     if kind == "st" and len(mv) == 1:
         return mv[0] == [Fr(x) for x in spec["gen_count"]]
     return False
@@ -73,49 +77,11 @@ def _rerun_moments_ok(rec, res):
                                        rec.get("nmax", 3))
 
 
-def _answer(res, kind, fixed_limit):
-    """the value the (re-run) code reports; for the sampling time optionally with the limit taken over
-    the integer iteration symbol (the repair of F30)"""
+def _answer(res, kind):
+    """the value the (re-run) code reports (the limit is taken by the code itself since repo commit cbda3aa)"""
     if not res or not res.get("ran"):
         return None
-    if kind == "st" and fixed_limit:
-        return _fr(res.get("final_fixed_limit"))
     return _fr(res.get("final"))
-
-
-def limit_not_taken(prop, rec):
-    """F30: SamplingTimeQuery.generate_result prints E(count)(n) itself: `transform_to_after_loop` takes the
-    limit over Symbol("n") while the closed form contains Symbol("n", integer=True).
-    Signature: sampling-time query, reported value still depends on n, every E(count)(n) is the exact value,
-    and the limit over the right symbol is exactly 1/P(evidence)."""
-    if rec["kind"] != "st" or rec["status"] != "mismatch":
-        return None
-    code = rec["code"]
-    if not code.get("ran") or code.get("final", [None])[0] != "symbolic":
-        return None
-    if not re.search(r"\bn\b", code.get("final_str", "")):
-        return None
-    if not rec.get("moments_ok"):
-        return None
-    want = _spec_value(rec)
-    if want is None or _fr(code.get("final_fixed_limit")) != want:
-        return None
-    return True
-
-
-def power_zero(prop, rec):
-    """F32: ExactInferenceQuery with target power 0: the goal is E(inf**0) = E(1) = 1 instead of E(ind), so
-    the answer is 1/P(evidence) instead of 1.  Signature: k = 0, P(ev) < 1, answer exactly 1/P(ev)."""
-    if rec["kind"] != "ei" or rec.get("k") != 0 or rec["status"] != "mismatch":
-        return None
-    got = _fr(rec["code"].get("final"))
-    pev = Fr(rec["spec"]["pev"])
-    if got is None or pev in (0, 1) or _spec_value(rec) != 1:
-        return None
-    if got != 1 / pev and _float_remainders(rec["code"].get("code")):
-        # F33 may perturb P(ev) as well: decide on the run with the exact remainder
-        got = _answer(_rerun(rec, ["remainder"]), "ei", False)
-    return True if got == 1 / pev else None
 
 
 def _float_remainders(code_text):
@@ -175,10 +141,7 @@ def float_sum_check(prop, rec):
     if want is None:
         return None
     res = _rerun(rec, ["remainder"])
-    got = _answer(res, rec["kind"], fixed_limit=True)
-    if rec["kind"] == "ei" and rec.get("k") == 0:
-        pev = Fr(rec["spec"]["pev"])
-        return True if got is not None and pev != 0 and got == 1 / pev else None
+    got = _answer(res, rec["kind"])
     return True if got is not None and got == want and _rerun_moments_ok(rec, res) else None
 
 
@@ -196,7 +159,7 @@ def float_remainder(prop, rec):
     if want is None:
         return None
     res = _rerun(rec, ["remainder"])
-    got = _answer(res, rec["kind"], fixed_limit=True)
+    got = _answer(res, rec["kind"])
     if got is None or got != want or not _rerun_moments_ok(rec, res):
         return None
     return True
@@ -216,14 +179,11 @@ def reserved_name(prop, rec):
     if want is None:
         return None
     res = _rerun(rec, ["names"])
-    got = _answer(res, rec["kind"], fixed_limit=True)
+    got = _answer(res, rec["kind"])
     if got is None:
         return None
-    if rec["kind"] == "ei" and rec.get("k") == 0:
-        pev = Fr(rec["spec"]["pev"])
-        return True if pev != 0 and got == 1 / pev else None
     if got != want or not _rerun_moments_ok(rec, res):
         # the float remainder may be present as well
         res = _rerun(rec, ["names", "remainder"])
-        got = _answer(res, rec["kind"], fixed_limit=True)
+        got = _answer(res, rec["kind"])
     return True if got == want and _rerun_moments_ok(rec, res) else None
